@@ -59,6 +59,16 @@ Theorem C08_del_unacked_not_requested :
 Proof. exact del_unacked_not_requested. Qed.
 Print Assumptions C08_del_unacked_not_requested.
 
+(* "requests only capabilities ... it wants": 'sasl' is wanted only by a network that has a usable SASL mechanism
+   (wanted_ok: the configuration as Irc.resetSasl / _wantedCapabilities build it, per Irc object since the fix of
+   finding C08.F27; the harness checks wanted_ok on every rig, also next to another network that has credentials):
+   then no CAP REQ ever names 'sasl' on a network without mechanisms, for every message sequence *)
+Theorem C08_sasl_requested_only_with_mechanisms :
+  forall c ms s, wanted_ok c -> InvA s ->
+  forall caps adv acked, In (GReq caps adv acked) (snd (run_msgs c s ms)) -> In s_sasl caps -> c_mechs c <> [].
+Proof. exact sasl_requested_only_with_mechanisms. Qed.
+Print Assumptions C08_sasl_requested_only_with_mechanisms.
+
 (* "credentials only after the server acknowledged sasl", against the SERVER's
    own books: [upd_ack m a] is what the server has acknowledged on this
    connection after its message m (CAP ACK adds the names, a driver reset starts
